@@ -237,6 +237,7 @@ pub struct ProbeLog {
     /// first window that was not "zeros then consecutive stream samples"
     pub bad_window: Option<String>,
     pub bad_args: Option<String>,
+    pub poisoned: u64,
 }
 
 /// Linear probe: returns the linear interpolation of `wave` at the instant the real
@@ -244,6 +245,11 @@ pub struct ProbeLog {
 /// With the index signal the resampler's output therefore *is* its evaluation instant.
 /// It also checks that the window it is asked to read holds consecutive stream samples
 /// (optionally preceded by the zero pre-roll): anything else is stale or skipped storage.
+/// Offset added to a point whose window holds anything but consecutive stream samples. Large enough that a
+/// weight above ~1e-12 * |instant| throws the recovered instant out of the spacing band, small enough that the
+/// rounding noise of a position that sits exactly on a grid point (weight ~1e-13) stays inside the tolerance.
+pub const POISON: f64 = 1.0e3;
+
 pub struct ProbeInterp {
     pub len: usize,
     pub n: usize,
@@ -293,6 +299,33 @@ impl<T: Flt> SincInterpolator<T> for ProbeInterp {
                 }
             }
         }
+        let poisoned = self.check_window && {
+            // is *this* window bad (the log keeps only the first bad one)
+            let w = &wave[index..index + self.len];
+            let mut started = false;
+            let mut bad = false;
+            for k in 0..self.len - 1 {
+                let a = w[k].to64();
+                let b = w[k + 1].to64();
+                let ok = if !started && a == 0.0 {
+                    if b != 0.0 {
+                        started = true;
+                    }
+                    b == 0.0 || b >= 1.0
+                } else {
+                    started = true;
+                    b == a + 1.0
+                };
+                if !ok {
+                    bad = true;
+                    break;
+                }
+            }
+            bad
+        };
+        if poisoned {
+            log.poisoned += 1;
+        }
         let mut i0 = index + self.len / 2 - 1;
         let mut num = subindex + 1;
         if num >= self.n {
@@ -302,7 +335,9 @@ impl<T: Flt> SincInterpolator<T> for ProbeInterp {
         let frac = num as f64 / self.n as f64;
         let a = wave[i0].to64();
         let b = wave[i0 + 1].to64();
-        T::from64(a + frac * (b - a))
+        // a window holding anything but consecutive stream samples poisons the point: if the point has a
+        // non-zero weight in the output frame, the recovered instant is thrown far off the line
+        T::from64(a + frac * (b - a) + if poisoned { POISON } else { 0.0 })
     }
     fn len(&self) -> usize {
         self.len
@@ -554,4 +589,22 @@ pub fn build<T: Flt>(cfg: &Config) -> Result<Built<T>, ResamplerConstructionErro
         Kind::FftInOut => Box::new(FftFixedInOut::<T>::new(cfg.rate_in, cfg.rate_out, cfg.chunk, cfg.channels)?),
     };
     Ok(Built { inst, probe, cross })
+}
+
+
+/// Constructor outcome with comparable error payloads (C13 constructor faults).
+#[derive(Debug, Clone, PartialEq)]
+pub enum CErr {
+    InvalidSampleRate { input: usize, output: usize },
+    InvalidRelativeRatio(u64),
+    InvalidRatio(u64),
+}
+
+pub fn construct_result<T: Flt>(cfg: &Config) -> Result<(), CErr> {
+    match build::<T>(cfg) {
+        Ok(_) => Ok(()),
+        Err(ResamplerConstructionError::InvalidSampleRate { input, output }) => Err(CErr::InvalidSampleRate { input, output }),
+        Err(ResamplerConstructionError::InvalidRelativeRatio(x)) => Err(CErr::InvalidRelativeRatio(x.to_bits())),
+        Err(ResamplerConstructionError::InvalidRatio(x)) => Err(CErr::InvalidRatio(x.to_bits())),
+    }
 }
